@@ -11,4 +11,6 @@ for id in "$@"; do
 	echo "exit=${PIPESTATUS[0]}"
 done
 git -C /repo checkout -- .
+# rebuild so that no binary built from the patched tree is left behind
+./build.sh all > /dev/null 2>&1
 git -C /repo status --short | head -3
